@@ -5,7 +5,7 @@ texts, by the SMT solvers' regular-expression theory.  Counter-models are replay
 Also: cross-check of the translator against CPython on sampled (u, v, w) (a disagreement is a checker error)."""
 import random, time
 from . import rx2smt as R, smt
-from .common import native, CheckerError, SEED
+from .common import native, CheckerError, SEED, NCPU
 
 
 class Job:
@@ -30,10 +30,28 @@ def build(exprs):
     return pats
 
 
-def decide(report, jobs, timeout=60, samples_per_job=40, label="language"):
-    """jobs: list of Job.  Adds two obligations per job to the report (T<=upper, lower<=T); replays counter-models."""
+def _brz_task(args):
+    name, A, Bx, U = args
+    t0 = time.time()
+    try:
+        ok, path, states = R.included(A, Bx, U, limit=150000)
+        return name, ("unsat" if ok else "sat"), path, states, time.time() - t0
+    except CheckerError as e:
+        return name, "unknown", str(e), 0, time.time() - t0
+    except RecursionError:
+        return name, "unknown", "recursion limit", 0, time.time() - t0
+
+
+def decide(report, jobs, timeout=20, samples_per_job=40, label="language", smt_all=True):
+    """jobs: list of Job.  Adds two obligations per job to the report (T<=upper, lower<=T); replays counter-models.
+    Back ends: SMT portfolio on the SMT-LIB regex query AND the derivative-product decision procedure of rx2smt on the
+    same regex ASTs; whichever answers discharges, and when both answer they must agree (else checker error)."""
+    import concurrent.futures as cf
+    import sys
+    sys.setrecursionlimit(20000)
     queries = []
     decs = {}
+    brz_in = []
     for j in jobs:
         try:
             j.T = R.T_language(j.tree, j.U)
@@ -46,7 +64,32 @@ def decide(report, jobs, timeout=60, samples_per_job=40, label="language"):
         queries.append((j.key + "|spec<=impl", q2))
         decs[j.key + "|impl<=spec"] = dec
         decs[j.key + "|spec<=impl"] = dec2
-    res = smt.run_many(queries, timeout=timeout)
+        brz_in.append((j.key + "|impl<=spec", j.T, j.upper, j.U))
+        brz_in.append((j.key + "|spec<=impl", j.lower, j.T, j.U))
+    brz = {}
+    with cf.ProcessPoolExecutor(max_workers=max(2, NCPU // 2)) as pool:
+        futs = [pool.submit(_brz_task, a) for a in brz_in]
+        res = smt.run_many(queries, timeout=timeout, workers=max(2, NCPU // 2), order=["z3-5.1"]) if smt_all else {}
+        for f in futs:
+            name, st, info, states, dt = f.result()
+            brz[name] = (st, info, states, dt)
+    # queries nobody decided: the rest of the portfolio with a longer budget
+    open_q = [(n, q) for n, q in queries if res.get(n, ("unknown",))[0] == "unknown" and brz[n][0] == "unknown"]
+    if open_q:
+        res.update(smt.run_many(open_q, timeout=max(60, timeout * 3), order=["cvc5-1.0", "z3-4.8", "z3-5.1"]))
+    merged = {}
+    for n, q in queries:
+        s_st, s_out, s_bk, s_dt = res.get(n, ("unknown", "", "none", 0.0))
+        b_st, b_info, b_states, b_dt = brz[n]
+        if s_st != "unknown" and b_st != "unknown" and s_st != b_st:
+            raise CheckerError(f"back ends disagree on {n}: {s_bk}={s_st} derivative-product={b_st}")
+        if s_st != "unknown":
+            bk = s_bk + ("+brz" if b_st != "unknown" else "")
+            merged[n] = (s_st, s_out, bk, s_dt + b_dt, None)
+        elif b_st != "unknown":
+            merged[n] = (b_st, "", "brz-derivative-product", s_dt + b_dt, b_info)
+        else:
+            merged[n] = ("unknown", s_out, "none", s_dt + b_dt, None)
     # translator cross-check against CPython on sampled texts
     xc = crosscheck([j for j in jobs if j.T is not None], samples_per_job)
     sat_cases = []
@@ -56,15 +99,24 @@ def decide(report, jobs, timeout=60, samples_per_job=40, label="language"):
             continue
         for d in ("impl<=spec", "spec<=impl"):
             name = j.key + "|" + d
-            st, out, bk, dt = res[name]
+            st, out, bk, dt, path = merged[name]
             if st == "unsat":
                 report.ob(name, "discharged", bk, dt, kind="language",
                           detail={"expr": j.expr, "pattern": j.pattern[:160], "all_texts": True})
             elif st == "unknown":
                 report.ob(name, "unknown", bk, dt, kind="language", detail=out[-200:])
             else:
-                ms = smt.model_string(out)
-                pieces = decs[name](ms) if ms is not None else None
+                if path is not None:
+                    pieces, cur = [], []
+                    for c in path:
+                        if c == R.MARKCP:
+                            pieces.append("".join(cur)); cur = []
+                        else:
+                            cur.append(chr(c))
+                    pieces.append("".join(cur))
+                else:
+                    ms = smt.model_string(out)
+                    pieces = decs[name](ms) if ms is not None else None
                 sat_cases.append((j, d, name, pieces, bk, dt))
     # replay counter-models natively
     if sat_cases:
